@@ -10,7 +10,7 @@ import tempfile
 import warnings
 
 from .core import exc_class, hx, unhx
-from .fstree import (shuffled_scandir, wide_tree, CHAIN_FILE, CHAIN_NAME, FILE_MODES, ROOT_SPELLINGS, apply_ops, chain_file, chain_has_file, collect_ids,
+from .fstree import (shuffled_scandir, token_bytes, wide_tree, CHAIN_FILE, CHAIN_NAME, FILE_MODES, ROOT_SPELLINGS, apply_ops, chain_file, chain_has_file, collect_ids,
                      count_nodes, enc_chain, enc_tree, gen_name, gen_reread, gen_tree, has_kind, impl_chain, materialise, mutate_tree,
                      other_spelling, ref_chain, ref_ids, shrink_tree, spelled_root, subdirs)
 
@@ -266,6 +266,9 @@ def gen_patterns(rng, t):
             p = b"*" + _utf8_pattern(rng.choice(names)) + b"*"
         elif q == 13 and dirs:
             p = _utf8_pattern(rng.choice(dirs))
+        if rng.random() < 0.12:     # a literal harvested from the code as (part of) the literal text of a pattern
+            tok = _utf8_pattern(token_bytes(rng, rng.choice([b"", b"a"])))
+            p = rng.choice([tok, tok + b"*", b"*" + tok, b"*/" + tok, tok + b"/*", (p or b"") + tok])
         if p and b"\0" not in p and not p.endswith(b"/") and b".." not in p.split(b"/") and len(p) < 200:
             out.append(p)
     if not out:
@@ -308,6 +311,8 @@ def gen_filter(rng, t):
             pool.append(rng.choice(names))
         elif names and q < 0.7:
             pool.append(_swapcase(rng.choice(names)))
+        elif q < 0.8:
+            pool.append(token_bytes(rng, rng.choice([b"", b"dir"]), slash=rng.random() < 0.3))     # a literal of the code as a name
         else:
             pool.append(rng.choice(NAMED_POOL))
     pool = sorted({p for p in pool if p})
